@@ -70,7 +70,7 @@ class C01(Prop):
     budget_s = {'quick': 240, 'thorough': 3000}
 
     def cases(self, tier, seed, want):
-        n = 24000 if tier == 'quick' else 500000
+        n = 24000 if tier == 'quick' else 300000
         yield from common.doc_cases(seed, n, want, 'c01',
                                     lambda j: common.cfg_general(j, tier))
         yield from common.corpus_cases(want, n)
